@@ -139,6 +139,9 @@ inductive Op where
   /-- `InsertCopy(record)` / `InsertCopy(uid, source)` / `Load(record)` / `Insert(record)` -/
   | insert (uid : Nat) (alias : String) (t : CstType) (fresh : Nat)
   | erase (uid : Nat)
+  /-- `RSForm::EraseInternal` as called by `DeleteDuplicatesInternal` / equations: no tracking
+  guard (the tracking record is dropped with the constituent) -/
+  | eraseInternal (uid : Nat)
   | setAlias (uid : Nat) (name : String)
   | moveBefore (what : Nat) (wherePos : Nat)
   | resetAliases
@@ -181,6 +184,13 @@ def step (st : St) : Op → Option (St × Out)
         some ({ ids := st.ids.filter (· != uid), names := st.names.filter (· != c.alias),
                 store := st.store.filter (·.uid != uid), texts := st.texts.filter (· != uid),
                 order := st.order.filter (· != uid), tracking := st.tracking.filter (· != uid) }, .bool true)
+  | .eraseInternal uid =>
+    match st.find uid with
+    | none => some (st, .bool false)
+    | some c =>
+      some ({ ids := st.ids.filter (· != uid), names := st.names.filter (· != c.alias),
+              store := st.store.filter (·.uid != uid), texts := st.texts.filter (· != uid),
+              order := st.order.filter (· != uid), tracking := st.tracking.filter (· != uid) }, .bool true)
   | .setAlias uid name =>
     match st.find uid with
     | none => some (st, .bool false)
